@@ -70,6 +70,7 @@ pub type Finish = Arc<dyn Fn(Report) + Send + Sync>;
 
 fn make_report(end: End, probe_ids: Vec<usize>, followup_id: Option<usize>, probe_started: bool) -> Report {
     crate::fsmon::io_yields(false);
+    crate::fsmon::sim_clock(false);
     let w = world();
     let st = w.st.lock().unwrap();
     let steps = shuttle::current::context_switches() as u64;
@@ -106,6 +107,7 @@ fn code_panics() -> Vec<PanicRec> {
 /// Report built outside the execution (after shuttle gave up: deadlock or step bound).
 pub fn report_after_abort(end: End) -> Report {
     crate::fsmon::io_yields(false);
+    crate::fsmon::sim_clock(false);
     let w = world();
     let st = w.st.lock().unwrap();
     let n = w.sc.conns.len();
@@ -145,6 +147,9 @@ pub fn world_main(sc: Scenario, trace: bool, finish: Finish) {
     let w = world();
     if w.sc.yields.iter().any(|y| y == "file_io") {
         crate::fsmon::io_yields(true);
+    }
+    if w.sc.yields.iter().any(|y| y == "clock") {
+        crate::fsmon::sim_clock(true);
     }
     match w.sc.engine {
         Engine::Pool => pool_world(finish),
